@@ -1,0 +1,56 @@
+/*
+ * Verification hooks (off unless BR_VERIF is defined). Used only by the
+ * external runtime-monitoring harnesses; with BR_VERIF undefined nothing
+ * in this file is seen by the compiler.
+ */
+#ifndef BR_VERIF_H__
+#define BR_VERIF_H__
+#ifdef BR_VERIF
+
+#include <stddef.h>
+#include <stdint.h>
+
+/*
+ * H1: override of the system seeder.
+ *   mode 0: untouched behaviour
+ *   mode 1: br_prng_seeder_system() returns a seeder that injects
+ *           br_verif_seed[] and succeeds
+ *   mode 2: returns a seeder that fails
+ *   mode 3: returns 0 (no seeder known)
+ */
+extern int br_verif_seeder_mode;
+extern unsigned char br_verif_seed[32];
+extern unsigned long br_verif_seeder_calls;
+
+/*
+ * H2: T0 interpreter monitors: stack pointers must stay within the
+ * context's own stacks at every instruction boundary; steps are counted.
+ */
+extern unsigned long long br_verif_t0_steps;
+void br_verif_fail(const char *what, const char *vm, long a, long b);
+
+#define BR_VERIF_T0_CHECK(vm, dps, rps, dp, rp)   do { \
+		br_verif_t0_steps ++; \
+		if ((dp) < (dps) || (dp) > (dps) + (sizeof (dps) / sizeof (dps)[0]) \
+			|| (rp) < (rps) || (rp) > (rps) + (sizeof (rps) / sizeof (rps)[0])) \
+		{ \
+			br_verif_fail("t0-stack", (vm), \
+				(long)((dp) - (dps)), (long)((rp) - (rps))); \
+		} \
+	} while (0)
+
+/*
+ * H3: declassification marks for the valgrind-based constant-time
+ * monitor. No-op unless BR_VERIF_VALGRIND is also defined.
+ */
+#ifdef BR_VERIF_VALGRIND
+#include <valgrind/memcheck.h>
+#define BR_VERIF_PUBLIC(ptr, len)   VALGRIND_MAKE_MEM_DEFINED((ptr), (len))
+#else
+#define BR_VERIF_PUBLIC(ptr, len)   ((void)0)
+#endif
+
+#else
+#define BR_VERIF_PUBLIC(ptr, len)   ((void)0)
+#endif
+#endif
